@@ -60,6 +60,7 @@ type scriptResult struct {
 	Problems []string `json:"problems"`
 	Defers   []int    `json:"defers"`
 	Log      string   `json:"log"`
+	EndMono  int64    `json:"end_mono"`
 }
 
 type batchResult struct {
@@ -229,6 +230,7 @@ func runBatch(specPath string) int {
 		for _, sub := range root.Subs[0].Subs {
 			r := get(sub.Name)
 			r.Verdict = sub.Verdict()
+			r.EndMono = sub.EndMono
 			lg := sub.LogText()
 			if len(lg) > 1500 {
 				lg = lg[len(lg)-1500:]
@@ -406,7 +408,12 @@ func main() {
 			}
 			r.Violation(fmt.Sprintf("%s batch=%d mode=%s uid=%d script=%s seed=%d", kind, c.Batch, c.Mode, c.Uid, c.Script, r.Seed), kind+": "+c.Detail, c)
 		}
+		timeouts := 0
 		for bi := 0; bi < nb; bi++ {
+			if timeouts >= 2 || r.Violations() >= 10 {
+				r.Set("stopped_early", fmt.Sprintf("after %d batch timeouts / %d violations", timeouts, r.Violations()))
+				break
+			}
 			dir := filepath.Join(base, fmt.Sprintf("batch%d", bi))
 			os.MkdirAll(dir, 0o777)
 			os.Chmod(dir, 0o777)
@@ -452,10 +459,11 @@ func main() {
 				go func() { done <- cmd.Wait() }()
 				select {
 				case <-done:
-				case <-time.After(3 * time.Minute):
+				case <-time.After(75 * time.Second):
 					cmd.Process.Signal(syscall.SIGQUIT)
 					<-done
-					r.Inconclusive(fmt.Sprintf("batch %d (%s) did not finish within 3 minutes", bi, mode))
+					r.Inconclusive(fmt.Sprintf("batch %d (%s) did not finish within 75 seconds", bi, mode))
+					timeouts++
 				}
 				errf.Close()
 				var br batchResult
@@ -521,6 +529,20 @@ func main() {
 				// processes: every helper that recorded its pid must be gone
 				pfs, _ := filepath.Glob(filepath.Join(spec.PidDir, "*"))
 				for _, pf := range pfs {
+					if strings.HasSuffix(pf, ".exit") {
+						// a slow-to-die helper recorded when it was about to exit: that must be before its run ended
+						b, _ := os.ReadFile(pf)
+						var tExit int64
+						fmt.Sscan(string(b), &tExit)
+						tok := strings.SplitN(filepath.Base(pf), "-", 2)[0]
+						for _, sp := range spec.Scripts {
+							if sp.Token == tok && byName[sp.Name] != nil && byName[sp.Name].EndMono != 0 && tExit > byName[sp.Name].EndMono {
+								mk("run-ended-before-its-process-exited", sp.Name, fmt.Sprintf("the run of %s ended %v before its (slow to die) background process was gone", sp.Name, time.Duration(tExit-byName[sp.Name].EndMono)), byName[sp.Name].Log)
+							}
+						}
+						os.Remove(pf)
+						continue
+					}
 					if strings.HasSuffix(pf, ".quit") {
 						continue
 					}
